@@ -12,10 +12,58 @@ import mutate
 def main():
     muts = json.load(open(os.path.join(HERE, "mutants.json")))
     sel = sys.argv[1:]
+    only_prop, json_out = None, None
+    if "--prop" in sel:
+        i = sel.index("--prop"); only_prop = sel[i + 1]; del sel[i:i + 2]
+    if "--json" in sel:
+        i = sel.index("--json"); json_out = sel[i + 1]; del sel[i:i + 2]
     if sel:
         muts = [m for m in muts if any(s in m["id"] for s in sel)]
+    if only_prop:
+        muts = [dict(m, props=[only_prop]) for m in muts if only_prop in m["props"]]
+    results = []
     env = dict(os.environ)
     fails = 0
+    # seeded changes written by independent sub-agents (stored with their patch): each must be reported by the
+    # checks listed in its meta.json
+    seeds = []
+    sdir = os.path.join(VERIF, "seeded")
+    if os.path.isdir(sdir) and not sel:
+        import re
+        for d in sorted(os.listdir(sdir)):
+            mp = os.path.join(sdir, d, "meta.json")
+            if not os.path.exists(mp):
+                continue
+            meta = json.load(open(mp))
+            props = sorted(set(re.findall(r"C\d\d", meta.get("caught_now_by", ""))))
+            if only_prop:
+                props = [p for p in props if p == only_prop]
+            if props:
+                seeds.append((d, props))
+    for d, props in seeds:
+        tmp = tempfile.mkdtemp(prefix="pv_seed_")
+        try:
+            repo = os.path.join(tmp, "repo")
+            shutil.copytree("/repo", repo, ignore=shutil.ignore_patterns(".git", "bin"))
+            pr = subprocess.run(["patch", "-p1", "-s", "-i", os.path.join(sdir, d, "patch.diff")], cwd=repo, capture_output=True, text=True)
+            vd = os.path.join(tmp, "verif")
+            os.makedirs(os.path.join(vd, "evidence"))
+            shutil.copy(os.path.join(VERIF, "known_findings.json"), vd)
+            env2 = dict(env, VERIF_REPO=repo, VERIF_DIR=vd)
+            for prop in props:
+                if pr.returncode != 0:
+                    ok, verdict, first = False, "PATCH DOES NOT APPLY", pr.stdout[:150]
+                else:
+                    p = subprocess.run(["bash", "-c", f". {VERIF}/env.sh; {VERIF}/bin/pcheck {prop} quick"], env=env2, capture_output=True, text=True)
+                    viol = [l for l in (p.stdout + p.stderr).splitlines() if l.startswith("violated") or l.startswith("undecided") or l.startswith("machinery failure")]
+                    ok = p.returncode == 1 and len(viol) > 0
+                    verdict, first = ("caught" if ok else "MISSED"), (viol[0][:150] if viol else "")
+                print(f"{'ok  ' if ok else 'FAIL'} seeded/{d:38s} {prop} {verdict}  {first}")
+                results.append({"mutant": "seeded/" + d, "property": prop, "kind": "seeded change (independent sub-agent)", "verdict": verdict, "ok": ok, "first_report": first})
+                if not ok:
+                    fails += 1
+        finally:
+            shutil.rmtree(tmp, ignore_errors=True)
     for m in muts:
         tmp = tempfile.mkdtemp(prefix="pv_mut_")
         try:
@@ -41,13 +89,16 @@ def main():
                     if verdict == "caught-other":
                         ok = False
                 print(f"{'ok  ' if ok else 'FAIL'} {m['id']:45s} {prop} {verdict}  {(viol[0][:150] if viol else '')}")
+                results.append({"mutant": m["id"], "property": prop, "kind": "behaviour-preserving edit" if m.get("silent") else "breaking mutant", "verdict": verdict, "ok": ok, "first_report": viol[0][:200] if viol else ""})
                 if not ok:
                     fails += 1
                     if os.environ.get("SELFTEST_VERBOSE"):
                         print(out[-3000:])
         finally:
             shutil.rmtree(tmp, ignore_errors=True)
-    print(f"{len(muts)} mutants, {fails} failures")
+    print(f"{len(muts)} mutants, {len(seeds)} seeded changes, {fails} failures")
+    if json_out:
+        json.dump({"mutants": len(muts) + len(seeds), "failures": fails, "results": results}, open(json_out, "w"), indent=1)
     return 1 if fails else 0
 
 if __name__ == "__main__":
